@@ -16,6 +16,7 @@ fn main() {
         "smoke" => drivers::smoke::run(&args),
         "server" => drivers::server::run(&args),
         "idmath" => drivers::idmath::run(&args),
+        "rt" => drivers::rt::run(&args),
         "idmath-one" => drivers::idmath::run_one(&args),
         other => {
             eprintln!("unknown driver {other}");
